@@ -385,7 +385,7 @@ func (r *Run) installHooks() {
 					r.crashPointFS(me, op, name)
 				}
 				for _, f := range me.opFaults {
-					if f.Kind == "eio" && f.At == me.fsCall {
+					if f.Kind == "eio" && f.At == me.fsCall && !strings.Contains(name, ".modtime-resolution") {
 						r.stats.Faults["disk-eio"]++
 						r.stats.Faults["disk-eio@"+strings.TrimPrefix(op, "f.")]++
 						me.faulted = true
